@@ -29,7 +29,7 @@ from glue.core.subset import roi_to_subset_state
 
 from vf.common import exc_name
 from vf.lib_C06_world import (MODES, STATE_VARIANTS, Names, build_state, diff_fields, fresh_data, is_in, mask_changes,
-                              mask_of, raised_below_harness, snapshot)
+                              mask_of, multi_member_count, raised_below_harness, snapshot, MULTI_VARIANTS)
 
 ID = "C13"
 LEVEL = "exploration"
@@ -262,11 +262,10 @@ class World:
                 self.check_stack(op)
                 return
             if op in ("apply", "apply_shared", "roi") and len(self.dc) == 0:
-                # a selection applied to an empty collection is observable on no dataset (and the commands capture the
-                # previous selection through member subsets); outside the stated domain, counted
-                ctx.count("degenerate_command_not_generated_selection_on_empty_collection")
-                self.executed.pop()
-                return
+                # in domain since 29d0f48 records states per group: the selection is observable through the group list,
+                # the structure of the group states and, once a dataset is back, the masks
+                ctx.count("selection_applied_to_empty_collection")
+                self.flags.add("selection_on_empty_collection")
             if op in ("add", "rem", "apply", "apply_shared", "roi"):
                 cmd = self.make_cmd(tok)
                 self.info["cmd"] = type(cmd).__name__
@@ -497,6 +496,11 @@ class World:
                 elif f == "member_masks":
                     keys["mask_change"] = "+".join(sorted(set(k for k, _, _ in mc))) or "dataset_set"
                     keys["dataset_rejoined_since_cmd"] = any(self.join_serial.get(dn, -1) > ent["serial"] for _, dn, _ in mc)
+                elif f == "state_tree":
+                    na = sum(multi_member_count(g.get("state_tree")) for g in after[0]["groups"][:n_want])
+                    nw = sum(multi_member_count(g.get("state_tree")) for g in want[0]["groups"])
+                    keys["multi_or_members_delta"] = max(-2, min(2, na - nw))
+                    keys["collection_empty"] = len(after[0]["datasets_sorted"]) == 0
                 elif f == "edit_subset":
                     keys["edit_points_at_surplus_group"] = any(isinstance(i, int) and i >= n_want for i in after[0]["edit"])
                 elif f == "datasets":
@@ -587,7 +591,13 @@ WALK_CMDS = [["add", "d2"], ["rem", "d1"], ["apply", 4, None], ["apply", 2, "or"
 WALK_P2 = ["uurru", "uurruurr", "uruurru"]
 WALK_P3 = ["uuurrruuu", "uurruuurrru", "uuurruurrru"]
 WALK_SETUPS = ["one_group_edited", "two_groups_one_edited_and", "two_groups_both_edited_or", "one_group_not_edited"]
-WALK3 = {"quick": (2, 6, 2), "thorough": (4, 9, 3)}      # (set-ups, commands, patterns) used for 3-command prefixes
+WALK3 = {"quick": (2, 6, 2), "thorough": (4, 9, 3)}
+# multi family: a MultiOrState becomes the state of the edit subset, further selections are combined with it, then walks
+MULTI_SECOND = [[k, m] for k in (1, 4, 2, 10) for m in ("or", "and", "xor", "andnot")]
+MULTI_PATTERNS = ["u", "uur", "uurru", "uuurr"]
+# empty family: every dataset is removed through commands, selections are applied to the empty collection, then walks that
+# end with the datasets back in the collection
+EMPTY_SEL = [[k, m] for k in (1, 4, 2, 10) for m in (None, "replace", "new", "or")]      # (set-ups, commands, patterns) used for 3-command prefixes
 N_BOUND = {"quick": 24, "thorough": 96}
 BLOCK = 20
 EXHAUSTIVE = {"quick": False, "thorough": False}
@@ -613,6 +623,8 @@ def _streams(tier, seed):
     out.append([["rand", i] for i in range(0, N_RANDOM[tier], BLOCK)])
     out.append([["bound", i] for i in range(N_BOUND[tier])])
     out.append([["walk", i] for i in range(0, N_WALK[tier], BLOCK)])
+    out.append([["multi", si, mv, a] for si in range(2) for mv in range(2) for a in range(len(MULTI_SECOND))])
+    out.append([["emptysel", si, a] for si in range(2) for a in range(len(EMPTY_SEL))])
     out.append([["wide", i] for i in range(0, N_WIDE[tier], BLOCK)])
     out.append([["walk2", si, a] for si in range(len(WALK_SETUPS)) for a in range(len(WALK_CMDS))])
     ns, nc, _ = WALK3[tier]
@@ -628,7 +640,7 @@ def cases(tier, seed):
     total = sum(len(s) for s in streams)
     # small families that a verdict needs (floors) advance ten times faster, so that even a run that the machine load cuts
     # to a tenth of the workload has completed them
-    speed = [10.0 if s[0][0] in ('bound', 'walk2', 'walk3') else 1.0 for s in streams]
+    speed = [10.0 if s[0][0] in ('bound', 'walk2', 'walk3', 'multi', 'emptysel') else 1.0 for s in streams]
     for _ in range(total):
         k = min((i for i in range(len(streams)) if pos[i] < len(streams[i])), key=lambda i: (pos[i] / len(streams[i]) / speed[i], i))
         yield streams[k][pos[k]]
@@ -753,6 +765,26 @@ def run_case(ctx, case):
         for _ in range(BLOCK):
             setup_name = ctx.rng.choice(sorted(SETUPS) + WALK_SETUPS)
             run_history(ctx, setup_name, wide_history(ctx.rng), "wide_random", use_app=ctx.rng.random() < 0.5)
+    elif case[0] == "multi":
+        _, si, mv, a = case
+        setup_name = ["one_group_edited", "two_groups_both_edited_or"][si]
+        first = ["apply", MULTI_VARIANTS[mv], "replace"]
+        k, m = MULTI_SECOND[a]
+        for third in [None] + MULTI_SECOND[::3]:
+            cmds = [first, ["apply", k, m]] + ([["apply", third[0], third[1]]] if third else [])
+            for pat in MULTI_PATTERNS:
+                hist = cmds + [["undo"] if c == "u" else ["redo"] for c in pat]
+                run_history(ctx, setup_name, hist, "multi_or_enumerated", use_app=(a + len(pat)) % 2 == 1)
+    elif case[0] == "emptysel":
+        _, si, a = case
+        setup_name = ["one_group_edited", "data_only"][si]
+        k, m = EMPTY_SEL[a]
+        for second in [None] + EMPTY_SEL[1::3]:
+            sel = [["apply", k, m]] + ([["apply", second[0], second[1]] if second[0] != 4 else ["roi", 0]] if second else [])
+            n = len(sel)
+            for walk in ("u" * n + "r" * n + "u" * (n + 2), "u" * (n + 1) + "r" * (n + 1) + "u" * (n + 2), "u" + "r" + "u" * (n + 2)):
+                hist = [["rem", "d0"], ["rem", "d1"]] + sel + [["undo"] if c == "u" else ["redo"] for c in walk]
+                run_history(ctx, setup_name, hist, "empty_collection_enumerated", use_app=(a + n) % 2 == 1)
     elif case[0] == "walk2":
         _, si, a = case
         for b in range(len(WALK_CMDS)):
@@ -793,7 +825,10 @@ def floors(counters, tier):
             # adversarial widening round
             "histories_wide_random": 120, "histories_with_observer_reading_during_updates": 60, "reads_during_broadcast": 500,
             "reads_in_stack_callback": 300, "histories_with_shared_state_object": 50, "histories_with_failing_command": 50,
-            "failing_do_raised": 60}
+            "failing_do_raised": 60,
+            # third round: reference-holding states under combining modes; selections on an empty collection
+            "histories_multi_or_enumerated": 300, "histories_empty_collection_enumerated": 150,
+            "histories_with_selection_on_empty_collection": 300, "selection_applied_to_empty_collection": 400}
     # the thorough tier demands what the quick tier demands: on a machine loaded by other checks its time cap may leave it
     # little more work than quick
     for k, v in need.items():
